@@ -102,7 +102,7 @@ let parse_cfg toks : config = match toks with
       { g_addr = n_of_int (ios addr); g_msg_types = bytes_of_hex mts; g_vendor_ids = go (ios nv) rest }
   | _ -> failwith "cfg"
 
-let csv l = if l = [] then "-" else String.concat "," (List.map (fun x -> string_of_int (int_of_n x)) l)
+let csv l = if l = [] then "-" else String.concat "," (List.map string_of_int (List.sort_uniq compare (List.map int_of_n l)))
 let b2i b = if b then 1 else 0
 
 let () =
